@@ -697,33 +697,17 @@ where
     __bytes_find(left, pattern.as_bytes())
 }
 pub(crate) const fn __bytes_find(left: &[u8], pattern: &[u8]) -> Option<usize> {
-    let mut matching = pattern;
+    let mut rem = left;
 
-    crate::for_range! {i in 0..left.len() =>
-        match matching {
-            [mb, m_rem @ ..] => {
-                let b = left[i];
-
-                matching = if b == *mb {
-                    m_rem
-                } else {
-                    match pattern {
-                        // For when the string is "lawlawn" and we are trying to find "lawn"
-                        [mb2, m_rem2 @ ..] if b == *mb2 => m_rem2,
-                        _ => pattern,
-                    }
-                };
-            }
-            [] => {
-                return Some(i - pattern.len())
-            }
+    loop {
+        if __bytes_start_with(rem, pattern) {
+            return Some(left.len() - rem.len());
         }
-    }
 
-    if matching.is_empty() {
-        Some(left.len() - pattern.len())
-    } else {
-        None
+        match rem {
+            [_, tail @ ..] => rem = tail,
+            [] => return None,
+        }
     }
 }
 
@@ -779,37 +763,21 @@ where
     __bytes_rfind(left, pattern.as_bytes())
 }
 pub(crate) const fn __bytes_rfind(left: &[u8], pattern: &[u8]) -> Option<usize> {
-    let mut matching = pattern;
-
-    let llen = left.len();
-
-    let mut i = llen;
-
-    while i != 0 {
-        i -= 1;
-
-        match matching {
-            [m_rem @ .., mb] => {
-                let b = left[i];
-
-                matching = if b == *mb {
-                    m_rem
-                } else {
-                    match pattern {
-                        // For when the string is "lawlawn" and we are trying to find "lawn"
-                        [m_rem2 @ .., mb2] if b == *mb2 => m_rem2,
-                        _ => pattern,
-                    }
-                };
-            }
-            [] => return Some(i + (!pattern.is_empty()) as usize),
-        }
+    if pattern.is_empty() {
+        return Some(left.len().saturating_sub(1));
     }
 
-    if matching.is_empty() {
-        Some(i)
-    } else {
-        None
+    let mut rem = left;
+
+    loop {
+        if __bytes_end_with(rem, pattern) {
+            return Some(rem.len() - pattern.len());
+        }
+
+        match rem {
+            [head @ .., _] => rem = head,
+            [] => return None,
+        }
     }
 }
 
@@ -1081,45 +1049,25 @@ macro_rules! rem_then_elem {
 }
 
 macro_rules! byte_find_then {
-    ($slice_order:ident, $this:ident, $needle:ident, |$next:ident| $then:block) => ({
+    ($slice_order:ident, $strip:ident, $this:ident, $needle:ident, |$next:ident| $then:block) => ({
         if $needle.is_empty() {
             return Some($this);
         }
 
-        let mut matching = $needle;
+        loop {
+            // `$next` is only used in half of the macro invocations
+            #[allow(unused_variables)]
+            if let Some($next) = $strip($this, $needle) {
+                $then
 
-        let mut $next = $this;
+                return Some($this);
+            }
 
-        while let $slice_order!(mb, ref m_rem @ ..) = *matching {
-            matching = m_rem;
-
-            if let $slice_order!(b, ref rem @ ..) = *$next {
-                if b != mb {
-                    matching = match *$needle {
-                        // For when the string is "lawlawn" and we are skipping "lawn"
-                        $slice_order!(mb2, ref m_rem2 @ ..) if b == mb2 => {
-                            // This is considered used in half of the macro invocations
-                            #[allow(unused_assignments)]
-                            {$this = $next;}
-                            m_rem2
-                        },
-                        _ => {
-                            // This is considered used in half of the macro invocations
-                            #[allow(unused_assignments)]
-                            {$this = rem;}
-                            $needle
-                        },
-                    };
-                }
-                $next = rem;
-            } else {
-                return None;
+            match $this {
+                $slice_order!(_skipped, rem @ ..) => $this = rem,
+                [] => return None,
             }
         }
-
-        $then
-
-        Some($this)
     });
 }
 
@@ -1155,7 +1103,7 @@ where
     __bytes_find_skip(this, needle.as_bytes())
 }
 pub(crate) const fn __bytes_find_skip<'a>(mut this: &'a [u8], needle: &[u8]) -> Option<&'a [u8]> {
-    byte_find_then! {elem_then_rem, this, needle, |next| {this = next}}
+    byte_find_then! {elem_then_rem, __bytes_strip_prefix, this, needle, |next| {this = next}}
 }
 
 /// Advances `this` up to the first instance of `needle`.
@@ -1190,7 +1138,7 @@ where
     __bytes_find_keep(this, needle.as_bytes())
 }
 pub(crate) const fn __bytes_find_keep<'a>(mut this: &'a [u8], needle: &[u8]) -> Option<&'a [u8]> {
-    byte_find_then! {elem_then_rem, this, needle, |next| {}}
+    byte_find_then! {elem_then_rem, __bytes_strip_prefix, this, needle, |next| {}}
 }
 
 /// Truncates `this` to before the last instance of `needle`.
@@ -1225,7 +1173,7 @@ where
     __bytes_rfind_skip(this, needle.as_bytes())
 }
 pub(crate) const fn __bytes_rfind_skip<'a>(mut this: &'a [u8], needle: &[u8]) -> Option<&'a [u8]> {
-    byte_find_then! {rem_then_elem, this, needle, |next| {this = next}}
+    byte_find_then! {rem_then_elem, __bytes_strip_suffix, this, needle, |next| {this = next}}
 }
 
 /// Truncates `this` to the last instance of `needle`.
@@ -1260,7 +1208,7 @@ where
     __bytes_rfind_keep(this, needle.as_bytes())
 }
 pub(crate) const fn __bytes_rfind_keep<'a>(mut this: &'a [u8], needle: &[u8]) -> Option<&'a [u8]> {
-    byte_find_then! {rem_then_elem, this, needle, |next| {}}
+    byte_find_then! {rem_then_elem, __bytes_strip_suffix, this, needle, |next| {}}
 }
 
 /// A const equivalent of
